@@ -55,8 +55,8 @@ SetRF ==
 
 SetAF ==
   /\ stage = "fields" /\ NeedAF /\ ~c.setAF
-  /\ \/ /\ c.n > 1
-        /\ \E v \in [1..(c.n - 1) -> Values] : c' = [c EXCEPT !.hasAF = TRUE, !.af = v, !.setAF = TRUE]
+  /\ \/ \E v \in [1..(c.n - 1) -> Values] :       \* c.n = 1: the empty vector, which VCF (and mchap assemble) spell 'AF=.'
+          c' = [c EXCEPT !.hasAF = TRUE, !.af = v, !.setAF = TRUE]
      \/ c' = [c EXCEPT !.setAF = TRUE]
   /\ UNCHANGED <<stage, keep, masked, w, kept, den, outcome>>
 
